@@ -13,6 +13,7 @@ import signal
 from .. import core, harness, vloop
 
 PROP = 'C14'
+TECHNIQUE = ('runtime monitoring: history at the application boundary (ExtEvent.send outcome and probe deliveries) over enumerated life-cycle phases x data shapes x destination kinds')
 LEVEL = 'exploration'
 RULE = ("case = (life-cycle phase in {no task, task created, initialising, running, abort "
         "requested, inside stop(), inside stop_async(), finished after shutdown, finished after "
